@@ -221,7 +221,8 @@ def make_sheets(env, job):
 
 
 def copy_digest(document, zoom, write_options):
-    """PDF of every other page through Document.copy (variants that need the HTML tree are not copied)."""
+    """PDF of every other page through Document.copy.  Written without the variant: with pdf/ua-1 the bytes of a
+    copy depend on whether the whole document was written before (known finding stale-link-annotation)."""
     options = {k: v for k, v in write_options.items() if k != 'pdf_variant'}
     subset = document.copy(document.pages[::2])
     return hashlib.md5(subset.write_pdf(zoom=zoom, pdf_identifier=IDENTIFIER, **options)).hexdigest()
